@@ -4,7 +4,7 @@ name=$1; shift
 cd /repo || exit 2
 if ! git diff --quiet; then echo "/repo has uncommitted changes"; exit 2; fi
 if ! git apply --check /verif/seeded/$name/patch.diff 2>/dev/null; then
-  if ! git apply --3way /verif/seeded/$name/patch.diff >/dev/null 2>&1; then echo "PATCH DOES NOT APPLY: $name"; git checkout -- . ; exit 3; fi
+  if ! git apply --3way /verif/seeded/$name/patch.diff >/dev/null 2>&1; then echo "PATCH DOES NOT APPLY: $name"; git reset -q --hard HEAD; exit 3; fi
   git reset -q
 else
   git apply /verif/seeded/$name/patch.diff
@@ -16,4 +16,4 @@ for pid in "$@"; do
   echo "$out" | grep -a -E "^(VIOLATION|OK|FAIL|BROKEN)" | head -${LINES_SHOWN:-4}
   echo "$out" | grep -a -E "^  signature" | head -3
 done
-git -C /repo checkout -- .
+git -C /repo reset -q --hard HEAD
